@@ -359,6 +359,10 @@ def const(node, env=None):
         v = const(node.func.value, env)
         if isinstance(v, (set, frozenset, bytes, bytearray, tuple, list, str, int, range)):
             return getattr(v, node.func.attr)(*[const(a, env) for a in node.args])     # pure methods of builtin values only
+    if isinstance(node, ast.Call) and isinstance(node.func, ast.Attribute) and node.func.attr == 'format':
+        v = const(node.func.value, env)
+        if isinstance(v, str):
+            return v.format(*[const(a, env) for a in node.args], **{k.arg: const(k.value, env) for k in node.keywords if k.arg})
     if isinstance(node, ast.Call) and norm(node.func) == 'memoryview' and len(node.args) == 1:
         return const(node.args[0], env)
     if isinstance(node, ast.Call) and isinstance(node.func, ast.Attribute) and node.func.attr == 'fromhex' \
